@@ -1,6 +1,7 @@
 package props
 
 import (
+	"errors"
 	"fmt"
 	"io"
 	"math"
@@ -10,8 +11,10 @@ import (
 
 	"hpverif/internal/core"
 	"hpverif/internal/fsx"
+	"hpverif/internal/kvs"
 
 	"github.com/hack-pad/hackpadfs"
+	"github.com/hack-pad/hackpadfs/keyvalue"
 )
 
 // C16: directory listings are complete, duplicate-free, ordered, and page correctly.
@@ -69,6 +72,14 @@ func c16cases(env *core.Env) []c16case {
 			}
 		}
 	}
+	// paging with one transient store failure in the middle
+	for _, n := range []int{4, 7, 30} {
+		for _, page := range []int{1, 2, 3, 100, -1} {
+			for failAt := 1; failAt <= 12; failAt += 2 {
+				cs = append(cs, c16case{Subject: "kvplain", N: n, Dir: "d", Pages: []int{page, failAt}, Name: "fault-paging"})
+			}
+		}
+	}
 	// random directories and page sequences
 	r := rand.New(rand.NewSource(env.Seed*5_000_011 + 16))
 	for i := 0; i < env.Pick(400, 8000); i++ {
@@ -101,7 +112,7 @@ func init() {
 	core.Register(&core.Prop{
 		ID:    "C16",
 		Level: "exploration",
-		Rule: "directories with 0,1,2,3,10,127,128,129,256,300,1200 children of mixed kinds (names incl. upper/lower case, '_', '^', dots, spaces, backslash, non-ASCII; names sharing letters with the mount path) (ground truth = the children the harness created) are presented through mem, keyvalue over a plain Store, mount (children that are mount points), a file system mounted at a two-element mount point, a Sub view, a Sub view of a directory above mount points, the cache (full and minimal store), the tar FS (default and minimal destination) and os.FS; the by-name listing must contain each child once, sorted, agreeing with Stat; a directory handle is read with page-size sequences (1,2,N-1,N,N+1,10^9, MaxInt and MinInt also on a handle that has been read before, mixed with 0 and -1, random) and checked against the fs.ReadDirFile contract; listing a regular file must fail with ErrNotDir. " +
+		Rule: "directories with 0,1,2,3,10,127,128,129,256,300,1200 children of mixed kinds (names incl. upper/lower case, '_', '^', dots, spaces, backslash, non-ASCII; names sharing letters with the mount path) (ground truth = the children the harness created) are presented through mem, keyvalue over a plain Store, mount (children that are mount points), a file system mounted at a two-element mount point, a Sub view, a Sub view of a directory above mount points, the cache (full and minimal store), the tar FS (default and minimal destination) and os.FS; the by-name listing must contain each child once, sorted, agreeing with Stat; a directory handle is read with page-size sequences (1,2,N-1,N,N+1,10^9, MaxInt and MinInt also on a handle that has been read before, mixed with 0 and -1, random) and checked against the fs.ReadDirFile contract; listing a regular file must fail with ErrNotDir; a handle over a plain store is paged while the store fails one Get: after the failing call, paging on must deliver every child not delivered yet, none twice. " +
 			"Non-trivial: a paged session over a directory with >=2 children that took >=2 pages; distinct by (subject, size, page sequence)",
 		Assumptions: []string{"directories are not mutated between pages", "for a child that is a mount point only name and kind are compared"},
 		NumCases:    func(env *core.Env) int { return len(c16cases(env)) },
@@ -128,9 +139,110 @@ func c16sizeClass(n int) string {
 	return "many"
 }
 
+// c16faultPaging: a directory handle of a keyvalue.FS over a plain store is paged while the store fails exactly one Get.
+// The failing ReadDir call reports the error; paging on must then deliver what had not been delivered yet: across the
+// successful pages every child appears exactly once.
+func c16faultPaging(cs c16case, res *core.CaseResult) {
+	p := kvs.NewPlain()
+	fsys, err := keyvalue.NewFS(p)
+	if err != nil {
+		res.Inconclusive = err.Error()
+		return
+	}
+	_ = hackpadfs.Mkdir(fsys, "d", 0o755)
+	want := map[string]bool{}
+	for i := 0; i < cs.N; i++ {
+		name := fmt.Sprintf("c%02d", i)
+		if i%3 == 1 {
+			_ = hackpadfs.Mkdir(fsys, "d/"+name, 0o755)
+		} else {
+			_ = hackpadfs.WriteFullFile(fsys, "d/"+name, []byte(name), 0o644)
+		}
+		want[name] = true
+	}
+	f, err := fsys.Open("d")
+	if err != nil {
+		res.Inconclusive = err.Error()
+		return
+	}
+	defer func() { _ = f.Close() }()
+	page, failAt := cs.Pages[0], cs.Pages[1]
+	gets, fired := 0, false
+	p.Hook = func(ev kvs.Event) error {
+		if ev.Op == "Get" {
+			gets++
+			if gets == failAt && !fired {
+				fired = true
+				return errors.New("injected transient store failure")
+			}
+		}
+		return nil
+	}
+	got := map[string]int{}
+	failedCalls := 0
+	for call := 0; call < 3*cs.N+10; call++ {
+		var entries []hackpadfs.DirEntry
+		var rerr error
+		if pn := core.Recover(func() { entries, rerr = hackpadfs.ReadDirFile(f, page) }); pn != "" {
+			res.Violate("C16|kvplain|paged-with-fault|panic", fmt.Sprintf("ReadDir(%d) panicked when the store failed its Get #%d: %s", page, failAt, pn), cs)
+			return
+		}
+		res.Count("pages_read", 1)
+		if rerr != nil && rerr != io.EOF {
+			failedCalls++
+			if len(entries) > 0 {
+				// entries delivered together with an error count as delivered
+				for _, e := range entries {
+					got[e.Name()]++
+				}
+			}
+			if failedCalls > 3 {
+				break
+			}
+			continue
+		}
+		for _, e := range entries {
+			got[e.Name()]++
+		}
+		if rerr == io.EOF || (page <= 0 && rerr == nil) || len(entries) == 0 {
+			break
+		}
+	}
+	p.Hook = nil
+	if !fired {
+		res.Count("fault_paging_fault_not_reached", 1)
+		return
+	}
+	res.Nontrivial = true
+	res.Count("fault_paging_runs", 1)
+	var missing, dup []string
+	for n := range want {
+		switch got[n] {
+		case 0:
+			missing = append(missing, n)
+		case 1:
+		default:
+			dup = append(dup, n)
+		}
+	}
+	sort.Strings(missing)
+	sort.Strings(dup)
+	if len(missing) > 0 {
+		res.Violate("C16|kvplain|paged-with-fault|skipped", fmt.Sprintf("paging %d children in pages of %d: the ReadDir during which the store failed Get #%d reported the error (%d failing calls), and paging on never delivered %v", cs.N, page, failAt, failedCalls, missing), cs)
+	}
+	if len(dup) > 0 {
+		res.Violate("C16|kvplain|paged-with-fault|duplicate", fmt.Sprintf("paging %d children in pages of %d with the store failing Get #%d: delivered more than once: %v", cs.N, page, failAt, dup), cs)
+	}
+}
+
 func c16run(env *core.Env, idx int) core.CaseResult {
 	var res core.CaseResult
 	cs := c16cases(env)[idx]
+	if cs.Name == "fault-paging" {
+		c16faultPaging(cs, &res)
+		res.Key = core.Hash(cs)
+		return res
+	}
 	prefix := ""
 	var items []treeItem
 	if cs.Dir != "." {
@@ -144,6 +256,7 @@ func c16run(env *core.Env, idx int) core.CaseResult {
 		mount bool
 	}
 	var want []child
+	siblingOfMount := ""
 	for i := 0; i < cs.N; i++ {
 		c := child{name: fmt.Sprintf("n%04d", (i*7919)%10000)}
 		switch i % 4 {
@@ -167,6 +280,33 @@ func c16run(env *core.Env, idx int) core.CaseResult {
 			it.Perm = 0o755
 		}
 		items = append(items, it)
+	}
+	// next to the first mount point: an ordinary directory whose name starts with the mount point's name
+	for _, c := range want {
+		if c.mount {
+			sib := child{name: c.name + "x", dir: true}
+			want = append(want, sib)
+			items = append(items, treeItem{Path: prefix + sib.name, Dir: true, Perm: 0o755}, treeItem{Path: prefix + sib.name + "/in-sibling", Perm: 0o644, Data: "s"})
+			siblingOfMount = sib.name
+			break
+		}
+	}
+	// deeper down, entries with the SAME base names as children of the listed directory but of the other kind
+	var twins []string
+	if cs.Dir == "." && cs.N >= 2 {
+		want = append(want, child{name: "zsame", dir: true})
+		items = append(items, treeItem{Path: "zsame", Dir: true, Perm: 0o755})
+		for _, c := range want {
+			if len(twins) >= 3 || c.mount || c.name == "zsame" || c.name == siblingOfMount {
+				continue
+			}
+			it := treeItem{Path: "zsame/" + c.name, Dir: !c.dir, Perm: 0o600, Data: "twin"}
+			if it.Dir {
+				it.Perm, it.Data = 0o700, ""
+			}
+			items = append(items, it)
+			twins = append(twins, it.Path)
+		}
 	}
 	// a regular file to list as a directory
 	items = append(items, treeItem{Path: "zfile", Perm: 0o644, Data: "plain"})
@@ -203,6 +343,19 @@ func c16run(env *core.Env, idx int) core.CaseResult {
 		wantByName[c.name] = c
 	}
 
+	// the deeper twins are looked at first (whatever a layer remembers about them must not answer for the children listed next)
+	for _, tw := range twins {
+		_, _ = hackpadfs.Stat(sub.fs, tw)
+	}
+	if len(twins) > 0 {
+		_, _ = hackpadfs.ReadDir(sub.fs, "zsame")
+	}
+	if siblingOfMount != "" {
+		inner, ierr := hackpadfs.ReadDir(sub.fs, prefix+siblingOfMount)
+		if ierr != nil || len(inner) != 1 || inner[0].Name() != "in-sibling" {
+			res.Violate(fmt.Sprintf("C16|%s|byname|%s|sibling-of-mountpoint", cs.Subject, c16sizeClass(len(want))), fmt.Sprintf("[%s] listing %q, an ordinary directory whose name starts with the name of the mount point next to it, returned %s (err %v); it holds exactly in-sibling", cs.Subject, prefix+siblingOfMount, fsx.EntriesString(inner), ierr), cs)
+		}
+	}
 	// (a) by-name listing
 	var entries []hackpadfs.DirEntry
 	var lerr error
